@@ -73,3 +73,10 @@ package pkcs7
 //@        (embedded != nil ==> sameslice(content, embedded) && (externalContent != nil ==> eqChecked)) && \
 //@        (embedded == nil ==> externalContent != nil && sameslice(content, externalContent))
 //@   modifies nothing
+
+//@ func marshalUnsortedSet
+//@   property C05
+//@   ghost enc []byte = nil
+//@   ghost first int = 0
+//@   on call encoding/asn1.Marshal(_) ret (b, e): enc = b; first = ite(len(b) > 0, b[0], 0)
+//@   ensures @sequence_tag_becomes_set_tag_and_nothing_else_changes ret1 == nil ==> sameslice(ret0, enc) && (len(ret0) > 0 ==> ret0[0] == first + 1 && first % 32 == 16)
